@@ -148,6 +148,11 @@ fn main() {
         let c = gen_alias_capture(&mut ctx.rng, i);
         jobs.push(Job { src: c.src, class: c.class, ty: Ty::Nest, expected: c.expected, model: None, alias_model: c.model });
     }
+    // histories: several copies (self-reads, spawns) on one thread with recurring source objects
+    for _ in 0..n / 4 {
+        let c = gen_history(&mut ctx.rng);
+        jobs.push(Job { src: c.src, class: c.class, ty: Ty::Nest, expected: c.expected, model: None, alias_model: c.model });
+    }
     // every program runs in a child process: a defect can abort the process (teardown panics, heap
     // corruption) and must be attributed to the program that triggered it
     let scheds: Vec<Schedule> = BUDGETS.iter().map(|&b| Schedule::constant(b)).collect();
@@ -164,7 +169,7 @@ fn main() {
         if j.alias_model.is_none() {
             ctx.count(&format!("type:{:?}", j.ty));
         }
-        let prog = || j.src[DECLS.len()..].replace(ALIAS_DECLS, "").replace('\n', "\\n");
+        let prog = || j.src.replace(DECLS, "").replace(ALIAS_DECLS, "").replace('\n', "\\n");
         let runs: Vec<(u32, Outcome, String, String)> = match r {
             ChildResult::Runs(x) => x
                 .into_iter()
